@@ -257,3 +257,354 @@ pub fn layout_instr<S: Src>(s: &mut S, which: u8, avr8l: bool) {
     core::mem::forget(res);
     core::mem::forget(common);
 }
+
+// ------------------------------------------------------------------------------------------
+// further scenarios
+
+fn db(ops: Vec<Operand>) -> Item {
+    Item::Data(DataDefine::Db, ops)
+}
+
+fn k(v: i64) -> Operand {
+    Operand::E(Expr::Const(v))
+}
+
+fn nop() -> Item {
+    Item::Instruction(Operation::Nop, vec![])
+}
+
+fn byte_at(v: &Vec<u8>, i: usize) -> Option<u8> {
+    if i < v.len() {
+        Some(v[i])
+    } else {
+        None
+    }
+}
+
+/// S2 — `.db` of n = 1..=3 byte constants in flash at word address `start` (0..=1), then
+/// `l: .dw l`.  Odd byte counts are padded with a single zero byte; the label is
+/// start + ceil(n/2).
+pub fn layout_db<S: Src>(s: &mut S, n: usize) {
+    s.role(H_C02_STEP, 10 + n as u32);
+    let start = s.below(2) as u32;
+    let b = [s.u8(), s.u8(), s.u8()];
+    let common = CommonContext::new();
+    let ops: Vec<Operand> = match n {
+        1 => vec![k(b[0] as i64)],
+        2 => vec![k(b[0] as i64), k(b[1] as i64)],
+        _ => vec![k(b[0] as i64), k(b[1] as i64), k(b[2] as i64)],
+    };
+    let items = vec![(cp(1), db(ops)), (cp(2), label("l")), (cp(3), dw_sym("l"))];
+    let res = run_passes(vec![seg(SegmentType::Code, start, items)], &common);
+    cov!(res.is_ok(), "!segment assembled");
+    #[cfg(not(kani))]
+    {
+        s.note("start", start as i64);
+        s.note("n", n as i64);
+        note_result(s, &res);
+    }
+    chk!(s, res.is_ok(), "C06: a .db line of byte constants failed to build");
+    if let Ok(r) = &res {
+        let st = 2 * start as usize;
+        let padded = (n + 1) / 2 * 2;
+        chk!(s, r.code.len() == st + padded + 2, "C06: flash image length differs from gap + padded .db + .dw");
+        let mut ok = true;
+        if n > 0 && byte_at(&r.code, st) != Some(b[0]) {
+            ok = false;
+        }
+        if n > 1 && byte_at(&r.code, st + 1) != Some(b[1]) {
+            ok = false;
+        }
+        if n > 2 && byte_at(&r.code, st + 2) != Some(b[2]) {
+            ok = false;
+        }
+        chk!(s, ok, "C06: .db bytes not emitted in source order");
+        if n % 2 == 1 {
+            chk!(s, byte_at(&r.code, st + n) == Some(0), "C06: odd-length .db not padded with a zero byte");
+        }
+        chk!(
+            s,
+            word_at(&r.code, (st + padded) / 2) == Some(((st + padded) / 2) as u16),
+            "C02: label after .db differs from the position of the next item"
+        );
+    }
+    core::mem::forget(res);
+    core::mem::forget(common);
+}
+
+/// S3 — EEPROM: `.db a, b, c` ; (a code segment in between) ; second EEPROM block at
+/// address `org` (0 = continue, or 5): `l: .db d` ; code: `.dw l`.
+/// Expected eeprom image: a b c [zero gap up to org] d; l = 3 or org.
+pub fn eeprom_blocks<S: Src>(s: &mut S, org5: bool) {
+    s.role(H_C02_STEP, 20 + org5 as u32);
+    let b = [s.u8(), s.u8(), s.u8(), s.u8()];
+    let common = CommonContext::new();
+    let org: u32 = if org5 { 5 } else { 0 };
+    let segs = vec![
+        seg(SegmentType::Eeprom, 0, vec![(cp(1), db(vec![k(b[0] as i64), k(b[1] as i64), k(b[2] as i64)]))]),
+        seg(SegmentType::Code, 0, vec![(cp(2), nop())]),
+        seg(SegmentType::Eeprom, org, vec![(cp(3), label("l")), (cp(4), db(vec![k(b[3] as i64)]))]),
+        seg(SegmentType::Code, 0, vec![(cp(5), dw_sym("l"))]),
+    ];
+    let res = run_passes(segs, &common);
+    cov!(res.is_ok(), "!program assembled");
+    #[cfg(not(kani))]
+    {
+        s.note("org", org as i64);
+        note_result(s, &res);
+    }
+    chk!(s, res.is_ok(), "C02: interleaved eeprom/code segments failed to build");
+    if let Ok(r) = &res {
+        let at = if org5 { 5usize } else { 3usize };
+        chk!(s, r.eeprom.len() == at + 1, "C02: eeprom image length differs from data + gap");
+        chk!(
+            s,
+            byte_at(&r.eeprom, 0) == Some(b[0]) && byte_at(&r.eeprom, 1) == Some(b[1]) && byte_at(&r.eeprom, 2) == Some(b[2]),
+            "C06: eeprom .db bytes not packed in source order"
+        );
+        if org5 {
+            chk!(s, byte_at(&r.eeprom, 3) == Some(0) && byte_at(&r.eeprom, 4) == Some(0), "C02: eeprom .org gap not zero filled");
+        }
+        chk!(s, byte_at(&r.eeprom, at) == Some(b[3]), "C02: second eeprom block does not land at its address");
+        chk!(s, r.code.len() == 4 && word_at(&r.code, 1) == Some(at as u16), "C02: eeprom label differs from the byte offset of its item");
+    }
+    core::mem::forget(res);
+    core::mem::forget(common);
+}
+
+/// S4 — reservations: eeprom `.db a ; .byte n ; .db b` (n = 0..=3) and data segment
+/// `.byte m ; l:` at address `dorg` (0 = RAM start, or RAM start + 4); code `.dw l`.
+/// Expected: eeprom = a, n zeros, b; l = data start + m; ram_filling = extent of the data segment.
+pub fn reservations<S: Src>(s: &mut S, with_org: bool) {
+    s.role(H_C02_STEP, 30 + with_org as u32);
+    let a = s.u8();
+    let b = s.u8();
+    let n = s.below(4) as i64;
+    let m = s.below(4) as i64;
+    let common = CommonContext::new();
+    let ram_start = 0x60u32; // default device
+    let dorg: u32 = if with_org { ram_start + 4 } else { 0 };
+    let segs = vec![
+        seg(
+            SegmentType::Eeprom,
+            0,
+            vec![(cp(1), db(vec![k(a as i64)])), (cp(2), Item::ReserveData(n)), (cp(3), db(vec![k(b as i64)]))],
+        ),
+        seg(SegmentType::Data, dorg, vec![(cp(4), Item::ReserveData(m)), (cp(5), label("l"))]),
+        seg(SegmentType::Code, 0, vec![(cp(6), dw_sym("l"))]),
+    ];
+    let res = run_passes(segs, &common);
+    cov!(res.is_ok(), "!program assembled");
+    #[cfg(not(kani))]
+    {
+        s.note("n", n);
+        s.note("m", m);
+        s.note("dorg", dorg as i64);
+        note_result(s, &res);
+    }
+    chk!(s, res.is_ok(), "C06: reservations in eeprom / data segment failed to build");
+    if let Ok(r) = &res {
+        let n = n as usize;
+        chk!(s, r.eeprom.len() == n + 2, "C06: .byte n in eeprom does not contribute n bytes");
+        chk!(s, byte_at(&r.eeprom, 0) == Some(a) && byte_at(&r.eeprom, n + 1) == Some(b), "C06: data around an eeprom reservation misplaced");
+        let mut zeros = true;
+        if n > 0 && byte_at(&r.eeprom, 1) != Some(0) {
+            zeros = false;
+        }
+        if n > 1 && byte_at(&r.eeprom, 2) != Some(0) {
+            zeros = false;
+        }
+        if n > 2 && byte_at(&r.eeprom, 3) != Some(0) {
+            zeros = false;
+        }
+        chk!(s, zeros, "C06: eeprom reservation is not zero bytes");
+        let dstart = if with_org { ram_start + 4 } else { ram_start };
+        chk!(s, word_at(&r.code, 0) == Some((dstart + m as u32) as u16), "C02: data-segment label differs from RAM start + offset");
+        chk!(s, r.ram_filling == dstart + m as u32 - ram_start, "C12: RAM usage is not the extent of the data segment");
+    }
+    core::mem::forget(res);
+    core::mem::forget(common);
+}
+
+/// S5 — items in the wrong segment fail the build.
+/// case 0: .dw in .dseg, 1: .db in .dseg, 2: .byte in .cseg, 3: instruction in .eseg, 4: .dd in .dseg
+pub fn wrong_segment<S: Src>(s: &mut S, case: u8) {
+    s.role(H_C02_STEP, 40 + case as u32);
+    let v = s.u8() as i64;
+    let common = CommonContext::new();
+    let (t, item) = match case {
+        0 => (SegmentType::Data, Item::Data(DataDefine::Dw, vec![k(v)])),
+        1 => (SegmentType::Data, db(vec![k(v)])),
+        2 => (SegmentType::Code, Item::ReserveData(v & 3)),
+        3 => (SegmentType::Eeprom, nop()),
+        _ => (SegmentType::Data, Item::Data(DataDefine::Dd, vec![k(v)])),
+    };
+    let res = run_passes(vec![seg(t, 0, vec![(cp(1), item)])], &common);
+    cov!(res.is_err(), "!misplaced item rejected");
+    #[cfg(not(kani))]
+    {
+        s.note("case", case as i64);
+        note_result(s, &res);
+    }
+    chk!(s, res.is_err(), "C06: a data directive / instruction in the wrong segment was accepted");
+    core::mem::forget(res);
+    core::mem::forget(common);
+}
+
+/// S6 — `.set` sequencing: `.set a = v1 ; .set b = a ; .dw a ; .set a = v2 ; .dw a ; .dw b`
+/// must emit v1, v2, v1 (each reference sees the latest *preceding* assignment; b was
+/// evaluated when it was assigned).
+pub fn set_sequence<S: Src>(s: &mut S) {
+    s.role(H_C10_PASS, 0);
+    let v1 = s.u16() as i64;
+    let v2 = s.u16() as i64;
+    let common = CommonContext::new();
+    let set = |n: &str, e: Expr| Item::Set(String::from(n), e);
+    let items = vec![
+        (cp(1), set("a", Expr::Const(v1))),
+        (cp(2), set("b", Expr::Ident(String::from("a")))),
+        (cp(3), dw_sym("a")),
+        (cp(4), set("a", Expr::Const(v2))),
+        (cp(5), dw_sym("a")),
+        (cp(6), dw_sym("b")),
+    ];
+    let res = run_passes(vec![seg(SegmentType::Code, 0, items)], &common);
+    cov!(res.is_ok(), "!program assembled");
+    #[cfg(not(kani))]
+    {
+        s.note("v1", v1);
+        s.note("v2", v2);
+        note_result(s, &res);
+    }
+    chk!(s, res.is_ok(), "C10: a valid .set sequence failed to build");
+    if let Ok(r) = &res {
+        chk!(s, r.code.len() == 6, "C10: image length");
+        chk!(s, word_at(&r.code, 0) == Some(v1 as u16), "C10: .set value not visible to the next reference");
+        chk!(s, word_at(&r.code, 1) == Some(v2 as u16), "C10: reference does not see the latest preceding .set");
+        chk!(s, word_at(&r.code, 2) == Some(v1 as u16), "C10: a .set variable changed after it was assigned");
+    }
+    core::mem::forget(res);
+    core::mem::forget(common);
+}
+
+/// S7 — `.set` inside a data segment block is applied like anywhere else:
+/// cseg `.set n = v1` ; dseg `.set n = v2` ; cseg `.dw n`  ->  v2
+pub fn set_in_dseg<S: Src>(s: &mut S) {
+    s.role(H_C10_PASS, 1);
+    let v1 = s.u16() as i64;
+    let v2 = s.u16() as i64;
+    let common = CommonContext::new();
+    let set = |n: &str, e: Expr| Item::Set(String::from(n), e);
+    let segs = vec![
+        seg(SegmentType::Code, 0, vec![(cp(1), set("n", Expr::Const(v1))), (cp(2), nop())]),
+        seg(SegmentType::Data, 0, vec![(cp(3), set("n", Expr::Const(v2))), (cp(4), Item::ReserveData(1))]),
+        seg(SegmentType::Code, 0, vec![(cp(5), dw_sym("n"))]),
+    ];
+    let res = run_passes(segs, &common);
+    cov!(res.is_ok(), "!program assembled");
+    #[cfg(not(kani))]
+    {
+        note_result(s, &res);
+    }
+    chk!(s, res.is_ok(), "C10: .set inside a .dseg block failed to build");
+    if let Ok(r) = &res {
+        chk!(s, word_at(&r.code, 1) == Some(v2 as u16), "C10: a .set written inside a .dseg block was not applied");
+    }
+    core::mem::forget(res);
+    core::mem::forget(common);
+}
+
+/// S8 — `.def` / `.undef` lifetime: `.def t = rN ; com t ; .undef t ; com t`
+/// case 0: only the first two items -> builds, identical to `com rN`
+/// case 1: all four -> the build fails (alias used after .undef)
+pub fn def_undef<S: Src>(s: &mut S, case: u8) {
+    s.role(H_C10_PASS, 10 + case as u32);
+    let r = s.below(32);
+    let common = CommonContext::new();
+    let reg_name = crate::ops::arg_text(&A::R(r));
+    let com_t = || Item::Instruction(Operation::Com, vec![InstructionOps::E(Expr::Ident(String::from("t")))]);
+    let mut items = vec![(cp(1), Item::Def(String::from("t"), Expr::Ident(reg_name))), (cp(2), com_t())];
+    if case == 1 {
+        items.push((cp(3), Item::Undef(String::from("t"))));
+        items.push((cp(4), com_t()));
+    }
+    let res = run_passes(vec![seg(SegmentType::Code, 0, items)], &common);
+    #[cfg(not(kani))]
+    {
+        s.note("reg", r as i64);
+        note_result(s, &res);
+    }
+    if case == 0 {
+        cov!(res.is_ok(), "!alias assembled");
+        chk!(s, res.is_ok(), "C10: instruction using a .def alias failed to build");
+        if let Ok(b) = &res {
+            chk!(s, word_at(&b.code, 0) == Some(0x9400 | ((r as u16) << 4)), "C10: instruction using an alias differs from the one using the register");
+        }
+    } else {
+        cov!(res.is_err(), "!use after .undef rejected");
+        chk!(s, res.is_err(), "C10: an alias used after .undef still assembled");
+    }
+    core::mem::forget(res);
+    core::mem::forget(common);
+}
+
+/// S9 — duplicate labels fail the build: same name twice in one code segment (case 0) or in
+/// two segments of different kinds (case 1: code + data, case 2: code + eeprom).
+pub fn duplicate_label<S: Src>(s: &mut S, case: u8) {
+    s.role(H_C10_PASS, 20 + case as u32);
+    let common = CommonContext::new();
+    let segs = match case {
+        0 => vec![seg(SegmentType::Code, 0, vec![(cp(1), label("d")), (cp(2), nop()), (cp(3), label("d")), (cp(4), nop())])],
+        1 => vec![
+            seg(SegmentType::Code, 0, vec![(cp(1), label("d")), (cp(2), nop())]),
+            seg(SegmentType::Data, 0, vec![(cp(3), label("d")), (cp(4), Item::ReserveData(1))]),
+        ],
+        _ => vec![
+            seg(SegmentType::Code, 0, vec![(cp(1), label("d")), (cp(2), nop())]),
+            seg(SegmentType::Eeprom, 0, vec![(cp(3), label("d")), (cp(4), Item::ReserveData(1))]),
+        ],
+    };
+    let res = run_passes(segs, &common);
+    cov!(res.is_err(), "!duplicate label rejected");
+    #[cfg(not(kani))]
+    {
+        note_result(s, &res);
+    }
+    chk!(s, res.is_err(), "C10: a duplicate label was accepted");
+    core::mem::forget(res);
+    core::mem::forget(common);
+}
+
+/// S10 — the device gate as pass 2 calls it: `mul rD, rR` on a device with / without the
+/// NoMul flag (flag symbolic).
+pub fn gate_in_pass2<S: Src>(s: &mut S) {
+    s.role(H_C13_GATE, 11);
+    let no_mul = s.bool();
+    let d = s.below(32);
+    let r = s.below(32);
+    let common = CommonContext::new();
+    let mut dev = avra_lib::device::Device::new(0);
+    if no_mul {
+        dev.disable_opts = avra_lib::vmap::BTreeSet::from_sorted_vec(vec![avra_lib::device::DisabledOptions::NoMul]);
+    }
+    common.device.replace(Some(dev));
+    let item = Item::Instruction(
+        Operation::Mul,
+        vec![InstructionOps::R8(crate::ctx::reg(d)), InstructionOps::R8(crate::ctx::reg(r))],
+    );
+    let res = run_passes(vec![seg(SegmentType::Code, 0, vec![(cp(1), item)])], &common);
+    cov!(res.is_ok(), "!instruction assembled on a core that has it");
+    cov!(res.is_err(), "instruction rejected on a core that lacks it");
+    #[cfg(not(kani))]
+    {
+        s.note("no_mul", no_mul as i64);
+        note_result(s, &res);
+    }
+    chk!(s, res.is_ok() == !no_mul, "C13: pass 2 does not consult the device gate (or consults it wrongly)");
+    if let Ok(b) = &res {
+        let w = 0x9c00u16 | ((r as u16 & 0x10) << 5) | ((d as u16) << 4) | (r as u16 & 0x0f);
+        chk!(s, word_at(&b.code, 0) == Some(w), "C13: an allowed instruction assembles differently with a device selected");
+    }
+    core::mem::forget(res);
+    core::mem::forget(common);
+}
